@@ -18,10 +18,17 @@
 (* harness/vlife (same names), leaves are <<table, partition>> sources.     *)
 (***************************************************************************)
 EXTENDS Naturals, Sequences, FiniteSets, TLC, Json
+(* Partial consumers (MODE = "partial"): the root exchange has m output partitions that the client drives       *)
+(* individually (OutTake), some of which it drops early (OutDrop, before or after the fault fires).  Batches are  *)
+(* routed to one output; a terminal item of an input (error, or end once all inputs ended) is FANNED OUT to the   *)
+(* outputs one by one in an arbitrary order (the HashMap order of wait_for_task); closed outputs are skipped.     *)
+(* FanSurfaces: a fault that reached the exchange surfaces at EVERY live output (none ends cleanly).              *)
 
 CONSTANTS NB,       \* batches per source partition
-          MODE,     \* "fault" | "drop" | "mem"
-          SHAPES    \* shape names explored (subset of DOMAIN Catalog)
+          MODE,     \* "fault" | "drop" | "mem" | "partial"
+          SHAPES,   \* shape names explored (subset of DOMAIN Catalog)
+          MOUTS,    \* partial mode: numbers of output partitions of the root exchange
+          BREAKS    \* partial mode: TRUE = the (wrong) error fan-out that stops at the first closed output
 
 Ample == 99
 Never == 99
@@ -73,15 +80,32 @@ Catalog == [
   limit             |-> << Limit("global_limit", 2, 1), Src("L", 0) >>,
   limit_xchg        |-> << Limit("global_limit", 2, 1), Xchg("coalesce_partitions", <<3, 4>>), Src("L", 0), Src("L", 1) >>,
   sort_repart       |-> << Block("sort", 2, TRUE), Xchg("coalesce_partitions", <<3>>), Xchg("repartition_rr", <<4>>), Src("L", 0) >>,
+  p_repart_rr       |-> << Xchg("repartition_rr", <<2>>), Src("L", 0) >>,
+  p_repart_hash     |-> << Xchg("repartition_hash", <<2, 3>>), Src("L", 0), Src("L", 1) >>,
+  p_repart_filter   |-> << Xchg("repartition_rr", <<2>>), Pipe("filter", 3), Src("L", 0) >>,
+  p_agg_final       |-> << Xchg("repartition_hash", <<2, 3>>), Block("agg_partial", 4, TRUE), Block("agg_partial", 5, TRUE), Src("L", 0), Src("L", 1) >>,
+  p_window_hash     |-> << Xchg("repartition_hash", <<2, 3>>), Src("L", 0), Src("L", 1) >>,
+  p_hash_join_part  |-> << Xchg("repartition_hash", <<2, 3>>), Src("L", 0), Src("L", 1) >>,
+  p_smj             |-> << Xchg("repartition_hash", <<2>>), Src("L", 0) >>,
+  p_shared_build    |-> << Xchg("once_async_build_side", <<2>>), Src("L", 0) >>,
+  p_nlj_build       |-> << Xchg("once_async_build_side", <<2>>), Src("L", 0) >>,
+  p_cross_build     |-> << Xchg("once_async_build_side", <<2>>), Src("L", 0) >>,
+  p_interleave      |-> << Xchg("interleave_of_repartitions", <<2, 3>>), Src("L", 0), Src("L", 1) >>,
+  p_local_limit     |-> << Xchg("repartition_hash", <<2, 3>>), Src("L", 0), Src("L", 1) >>,
+  analyze           |-> << Block("analyze", 2, FALSE), Xchg("coalesce_partitions", <<3, 4>>), Src("L", 0), Src("L", 1) >>,
+  shj               |-> << Join("symmetric_hash_join", 2, 3), Src("L", 0), Src("R", 0) >>,
   filter_union_sort |-> << Pipe("filter", 2), Block("sort", 3, TRUE), Xchg("coalesce_partitions", <<4>>), Merge("union", <<5, 6>>), Src("L", 0), Src("R", 0) >>
 ]
 
 VARIABLES sh, fault, dropAt, lim,            \* the case (constant along a behaviour)
+          fan,                               \* partial mode: the root exchange's outputs (a dummy record otherwise)
           st, pos, buf, disk, phase, want, out, q, eosn, spawned,
           tasks, aborting, fired, got, rootEnd, cause, started
-vars == <<sh, fault, dropAt, lim, st, pos, buf, disk, phase, want, out, q, eosn, spawned,
+vars == <<sh, fault, dropAt, lim, fan, st, pos, buf, disk, phase, want, out, q, eosn, spawned,
           tasks, aborting, fired, got, rootEnd, cause, started>>
-caseVars == <<sh, fault, dropAt, lim>>
+\* `fan` is listed here because none of the tree actions below touches it (the Fan* / Out* actions do)
+caseVars == <<sh, fault, dropAt, lim, fan>>
+realCaseVars == <<sh, fault, dropAt, lim>>
 
 T == Catalog[sh]
 Nodes == 1..Len(T)
@@ -141,6 +165,18 @@ InitCase ==
             /\ fault = NoFault
             /\ dropAt = Never
             /\ lim \in 0..(TotalIn(Catalog[sh]) + 1)
+       [] MODE = "partial" ->
+            /\ fault \in {f \in FaultPoints(Catalog[sh]) : f.kind \in {"src_err", "src_panic"}}
+            /\ dropAt = Never
+            /\ lim = Ample
+  /\ IF MODE = "partial"
+       THEN \E m \in MOUTS : \E d \in (SUBSET (1..m)) \ {{}, 1..m} : \E w \in {"before", "after"} :
+              fan = [m |-> m, drop |-> d, when |-> w,
+                     oq |-> [o \in 1..m |-> <<>>], ost |-> [o \in 1..m |-> "live"],
+                     ogot |-> [o \in 1..m |-> 0], routed |-> [o \in 1..m |-> 0],
+                     pending |-> <<>>, pitem |-> "none"]
+       ELSE fan = [m |-> 0, drop |-> {}, when |-> "before", oq |-> <<>>, ost |-> <<>>, ogot |-> <<>>, routed |-> <<>>,
+                   pending |-> <<>>, pitem |-> "none"]
 
 Init ==
   /\ InitCase
@@ -193,8 +229,12 @@ EmitTake(n, c, item) ==
 Request(c) == /\ out[c] = "none" /\ ~want[c] /\ st[c] = "open"
               /\ want' = [want EXCEPT ![c] = TRUE]
 
+\* partial mode, drop-before-fault cases: the failing source is parked until the victims were dropped
+GateOpen == MODE # "partial" \/ fan.when = "after" \/ \A o \in fan.drop : fan.ost[o] # "live"
+
 SrcStep(n) ==
   /\ T[n].kind = "src" /\ Ready(n)
+  /\ ~(fault.n = n /\ fault.k = pos[n] /\ ~GateOpen)
   /\ IF fault.n = n /\ fault.k = pos[n]
        THEN /\ Emit1(n, "err") /\ fired' = TRUE /\ cause' = "fault" /\ UNCHANGED pos
        ELSE IF pos[n] < NB
@@ -368,10 +408,12 @@ Start == /\ ~started /\ started' = TRUE
          /\ UNCHANGED <<caseVars, st, pos, buf, disk, phase, want, out, q, eosn, spawned, tasks, aborting, fired, got, rootEnd, cause>>
 
 ClientPoll ==
+  /\ MODE # "partial"
   /\ started /\ rootEnd = "none" /\ got < dropAt /\ Request(1)
   /\ UNCHANGED <<caseVars, st, pos, buf, disk, phase, out, q, eosn, spawned, tasks, aborting, fired, got, rootEnd, cause, started>>
 
 ClientTake ==
+  /\ MODE # "partial"
   /\ started /\ rootEnd = "none" /\ out[1] # "none"
   /\ out' = [out EXCEPT ![1] = "none"]
   /\ got' = IF out[1] = "b" THEN got + 1 ELSE got
@@ -380,6 +422,7 @@ ClientTake ==
 
 \* drop the stream: at the requested drop point, or after the terminal item
 ClientDrop ==
+  /\ MODE # "partial"
   /\ started /\ st[1] # "dropped"
   /\ \/ rootEnd = "none" /\ got = dropAt /\ out[1] = "none" /\ ~want[1] /\ rootEnd' = "dropped"
      \/ rootEnd \in {"ok", "err"} /\ UNCHANGED rootEnd
@@ -388,7 +431,79 @@ ClientDrop ==
 
 Client == Start \/ ClientPoll \/ ClientTake \/ ClientDrop
 
-Next == Client \/ (\E n \in Nodes : NodeStep(n)) \/ (\E t \in AllTasks : TaskStep(t) \/ TaskStop(t))
+(* ---------------- partial consumers of the root exchange ---------------- *)
+Outs == 1..fan.m
+Perms(S) == {p \in [1..Cardinality(S) -> S] : \A i, j \in 1..Cardinality(S) : i # j => p[i] # p[j]}
+TreeUnchanged == UNCHANGED <<realCaseVars, st, pos, buf, disk, phase, want, out, eosn, spawned, tasks, aborting, fired, got, rootEnd, cause, started>>
+
+FanStart ==
+  /\ MODE = "partial" /\ started /\ ~spawned[1] /\ st[1] = "open"
+  /\ spawned' = [spawned EXCEPT ![1] = TRUE]
+  /\ tasks' = tasks \cup {<<1, c>> : c \in KidSet(1)}
+  /\ UNCHANGED <<realCaseVars, fan, st, pos, buf, disk, phase, want, out, q, eosn, aborting, fired, got, rootEnd, cause, started>>
+
+\* the exchange takes the next item of an input task: a batch goes to one output, a terminal item starts a fan-out
+Route ==
+  /\ MODE = "partial" /\ st[1] = "open" /\ q[1] # <<>> /\ fan.pitem = "none"
+  /\ LET h == Head(q[1]) IN
+     \/ /\ h = "b"
+        /\ \E o \in Outs :
+             fan' = [fan EXCEPT !.routed[o] = @ + 1,
+                                !.oq[o] = IF fan.ost[o] = "live" THEN Append(@, "b") ELSE @]
+        /\ UNCHANGED eosn
+     \/ /\ h = "err"
+        /\ \E p \in Perms(Outs) : fan' = [fan EXCEPT !.pitem = "err", !.pending = p]
+        /\ UNCHANGED eosn
+     \/ /\ h = "eos"
+        /\ eosn' = [eosn EXCEPT ![1] = @ + 1]
+        /\ IF eosn[1] + 1 = Len(Kids(1))
+             THEN \E p \in Perms(Outs) : fan' = [fan EXCEPT !.pitem = "eos", !.pending = p]
+             ELSE UNCHANGED fan
+  /\ q' = [q EXCEPT ![1] = Tail(@)]
+  /\ UNCHANGED <<realCaseVars, st, pos, buf, disk, phase, want, out, spawned, tasks, aborting, fired, got, rootEnd, cause, started>>
+
+\* one step of the fan-out loop (wait_for_task): a closed output is skipped -- or, with BREAKS, ends the loop
+FanStep ==
+  /\ MODE = "partial" /\ fan.pitem # "none" /\ fan.pending # <<>>
+  /\ LET o == Head(fan.pending) IN
+     IF fan.ost[o] = "dropped"
+       THEN fan' = [fan EXCEPT !.pending = IF BREAKS THEN <<>> ELSE Tail(@),
+                               !.pitem = IF BREAKS \/ Len(fan.pending) = 1 THEN "none" ELSE @]
+       ELSE fan' = [fan EXCEPT !.oq[o] = IF fan.ost[o] = "live" THEN Append(@, fan.pitem) ELSE @,
+                               !.pending = Tail(@),
+                               !.pitem = IF Len(fan.pending) = 1 THEN "none" ELSE @]
+  /\ TreeUnchanged /\ UNCHANGED q
+
+InputsDone == spawned[1] /\ (\A c \in KidSet(1) : <<1, c>> \notin tasks) /\ q[1] = <<>> /\ fan.pitem = "none"
+
+OutTake(o) ==
+  /\ MODE = "partial" /\ fan.ost[o] = "live"
+  /\ \/ /\ fan.oq[o] # <<>>
+        /\ LET h == Head(fan.oq[o]) IN
+           fan' = [fan EXCEPT !.oq[o] = Tail(@),
+                              !.ogot[o] = IF h = "b" THEN @ + 1 ELSE @,
+                              !.ost[o] = IF h = "b" THEN "live" ELSE IF h = "err" THEN "err" ELSE "ok"]
+     \/ \* every sender is gone and nothing is queued: the channel is closed, the output ends cleanly
+        /\ fan.oq[o] = <<>> /\ InputsDone
+        /\ fan' = [fan EXCEPT !.ost[o] = "ok"]
+  /\ TreeUnchanged /\ UNCHANGED q
+
+OutDrop(o) ==
+  /\ MODE = "partial" /\ o \in fan.drop /\ fan.ost[o] = "live" /\ started
+  /\ IF fan.when = "before" THEN ~fired ELSE fired
+  /\ fan' = [fan EXCEPT !.ost[o] = "dropped", !.oq[o] = <<>>]
+  /\ TreeUnchanged /\ UNCHANGED q
+
+\* every output ended or was dropped: the plan and what is left of the exchange are dropped
+FanFinish ==
+  /\ MODE = "partial" /\ started /\ st[1] # "dropped"
+  /\ \A o \in Outs : fan.ost[o] # "live"
+  /\ DropEffect(DropSet(1, tasks), tasks, aborting)
+  /\ UNCHANGED <<realCaseVars, fan, pos, phase, eosn, spawned, fired, cause, got, rootEnd, started>>
+
+Fan == FanStart \/ Route \/ FanStep \/ FanFinish \/ (\E o \in 1..8 : o \in Outs /\ (OutTake(o) \/ OutDrop(o)))
+
+Next == Client \/ Fan \/ (\E n \in Nodes : NodeStep(n)) \/ (\E t \in AllTasks : TaskStep(t) \/ TaskStop(t))
 
 \* every step consumes something (the state graph is acyclic), so weak fairness of Next suffices
 Fair == WF_vars(Next)
@@ -422,6 +537,10 @@ ReleasedWhenQuiescent == Quiescent => Released
 \* owned-by-dropped: a dropped node holds nothing
 DroppedHoldsNothing == \A n \in Nodes : st[n] = "dropped" => buf[n] = 0 /\ disk[n] = 0 /\ ~want[n]
 
+\* partial consumers: once the fault fired no live output ends cleanly, and a clean end is complete
+FanSurfaces == MODE = "partial" => \A o \in Outs : fan.ost[o] = "ok" => ~fired
+FanComplete == MODE = "partial" => \A o \in Outs : fan.ost[o] = "ok" => fan.ogot[o] = fan.routed[o]
+
 \* liveness (weak fairness of every process): the query terminates, and a dropped stream releases everything
 Terminates == <>(st[1] = "dropped")
 DropReleases == (st[1] = "dropped") ~> Released
@@ -438,6 +557,7 @@ CaseRec ==
               p |-> IF fault.n = 0 THEN 0 ELSE T[fault.n].p],
    drop_at |-> dropAt, lim |-> lim, ref_batches |-> Ref,
    must_err |-> MustErr,
+   fan |-> [m |-> fan.m, drop |-> fan.drop, when |-> fan.when],
    spawns |-> \E n \in Nodes : T[n].kind = "xchg",
    spills |-> \E n \in Nodes : T[n].spill]
 Emit == (~started) => PrintT(<<"CASE", ToJson(CaseRec)>>)
